@@ -61,7 +61,7 @@ MANIFEST = dict(
 )
 FLOORS = {"C18.1": 2, "C18.2": 4, "C18.3": 2, "C18.4": 3, "C18.5": 3,
           "C18.6": 4, "C18.7": 4, "C18.8": 4, "C18.9": 1,
-          "C18.10": 2}
+          "C18.10": 2, "C18.11": 1}
 
 MC = "evo.main_config."
 ST = "evo.tools.settings."
@@ -85,6 +85,61 @@ def check(ctx):
     ctx.section(_parser_types, ctx, prog)
     ctx.section(_token_windows, ctx, prog)
     ctx.section(_generate, ctx, prog)
+    ctx.section(_sibling_settings, ctx, prog)
+
+
+def _settings_keys_read(prog, q: str):
+    """keys of the package settings a command's run() consults, helpers of
+    the glue modules looked through (values passed on as arguments count)"""
+    r = Interp(prog, max_depth=4).run(prog.func(q))
+    out = set()
+
+    def scan(t):
+        if not isinstance(t, T):
+            return
+        for x in t.walk():
+            if x.op == "attr" and x.args[0].op == "named" and \
+                    str(x.args[0].args[0]).endswith("SETTINGS"):
+                out.add(x.args[1])
+    for e in r.events:
+        scan(e.live)
+        for v in e.data.values():
+            if isinstance(v, T):
+                scan(v)
+            elif isinstance(v, (list, tuple)):
+                for z in v:
+                    if isinstance(z, tuple):
+                        for w in z:
+                            scan(w)
+                    else:
+                        scan(z)
+            elif isinstance(v, dict):
+                for z in v.values():
+                    scan(z)
+    return out
+
+
+def _sibling_settings(ctx, prog):
+    """C18.11: "-c overrides matching package settings for that run" holds
+    for a command only if it consults the setting.  evo_ape and evo_rpe are
+    siblings (same pipeline, same output options): a package setting one of
+    them consults in run() and the other does not is a setting that the
+    second silently ignores (its default applies whatever the file says)."""
+    a = _settings_keys_read(prog, "evo.main_ape.run")
+    b = _settings_keys_read(prog, "evo.main_rpe.run")
+    ctx.require(bool(a | b), "no package setting is consulted by evo_ape / "
+                "evo_rpe run() (unknown idiom)")
+    for k in sorted(a | b):
+        ok = k in a and k in b
+        ctx.ob("C18.11", prog.func("evo.main_rpe.run" if k not in b else
+                                   "evo.main_ape.run"), ok,
+               f"SETTINGS.{k} is consulted by evo_ape and evo_rpe alike"
+               if ok else
+               f"SETTINGS.{k} is consulted by "
+               f"{'evo_ape' if k in a else 'evo_rpe'} but not by its "
+               f"sibling {'evo_rpe' if k in a else 'evo_ape'}: there the "
+               f"value from the settings file or a -c config has no effect",
+               key=f"C18.11:sibling:{k}")
 
 
 def _set_config(ctx, prog):
@@ -655,8 +710,60 @@ def _reset(ctx, prog):
            key="C18.3:full")
 
 
+def _upgrade_sources(prog):
+    """what update_if_outdated writes, as dict sources by priority (merge
+    helper looked through): (verdict, message)"""
+    from ..lib import dict_priority
+    f = prog.func(ST + "update_if_outdated")
+    it = Interp(prog, inline=lambda fn: fn.qualname == ST + "merge_dicts",
+                max_depth=3)
+    r = it.run(f)
+    wr = [e for e in r.of_kind("call")
+          if (e.data.get("name") or "").endswith("write_to_json_file")
+          and not tm.is_const(e.live, False)]
+    if len(wr) != 1:
+        return None, "settings write not found"
+    d = (wr[0].data["bound"] or {}).get("dictionary")
+    pr = dict_priority(d, Interp.unname) if d is not None else None
+    if pr is None or len(pr) != 2:
+        return None, f"written value {fmt(d)[:80]}"
+
+    def kind(x: T):
+        if any(is_call_to(y, "json.loads", "json.load") for y in x.walk()):
+            return "user"
+        y = x
+        while y.op == "named":
+            y = T("global", y.args[0])
+        if y.op == "global" and y.args[0].endswith("DEFAULT_SETTINGS_DICT"):
+            return "defaults"
+        return "?"
+    ks = [kind(x) for x in pr]
+    if ks == ["user", "defaults"]:
+        return True, ""
+    if ks == ["defaults", "user"]:
+        return False, ("upgrade: the defaults take priority over the loaded "
+                       "settings — every value the user has set is reset")
+    return None, f"sources {[fmt(x)[:40] for x in pr]}"
+
+
 def _upgrade(ctx, prog):
     f = prog.func(ST + "update_if_outdated")
+    g0 = prog.func(ST + "merge_dicts")
+    if g0.params[:3] != ["first", "second", "soft"]:
+        # the merge helper has another interface: the upgrade is judged by
+        # what it writes — the user's values first, the defaults for the
+        # keys that are missing
+        v, why = _upgrade_sources(prog)
+        if v is None:
+            ctx.undecidable("C18.4", f, f"upgrade through the changed "
+                            f"merge_dicts not decided ({why})")
+        else:
+            for key in ("upgrade-call", "soft-merge", "upgrade-written"):
+                ctx.ob("C18.4", f, v,
+                       "upgrade: the written settings are the user's file "
+                       "with the defaults filled in for missing keys (user "
+                       "values first)" if v else why, key=f"C18.4:{key}")
+        return
     r = Interp(prog).run(f)
     m = r.calls(ST + "merge_dicts")
     ctx.require(len(m) == 1, "update_if_outdated: merge_dicts call not found")
@@ -704,9 +811,24 @@ def _upgrade(ctx, prog):
           if (e.data.get("name") or "").endswith("write_to_json_file")]
     ok = bool(wr) and (wr[0].data["bound"] or {}).get("dictionary") is \
         m[0].data["result"]
-    ctx.ob("C18.4", wr[0] if wr else f, ok,
-           "upgrade: the merged dict is what gets written",
-           key="C18.4:upgrade-written")
+    e2e = None
+    if not ok:
+        # the helper may merge in place and return nothing: judged by the
+        # sources of what is written, helper looked through
+        e2e, why_ = _upgrade_sources(prog)
+        if e2e is None:
+            ctx.undecidable("C18.4", wr[0] if wr else f, f"upgrade: what is "
+                            f"written is not the merge call's result and "
+                            f"its sources are not decided ({why_})")
+        else:
+            ctx.ob("C18.4", wr[0] if wr else f, e2e,
+                   "upgrade: the written dict is the user's settings with "
+                   "the defaults filled in (merged in place)" if e2e
+                   else why_, key="C18.4:upgrade-written")
+    else:
+        ctx.ob("C18.4", wr[0] if wr else f, ok,
+               "upgrade: the merged dict is what gets written",
+               key="C18.4:upgrade-written")
     g = prog.func(ST + "merge_dicts")
     rg = Interp(prog).run(g, {"soft": const(True)})
     fp, sp = tm.param("first"), tm.param("second")
@@ -722,8 +844,13 @@ def _upgrade(ctx, prog):
                key="C18.4:soft-merge")
     rg = Interp(prog).run(g)
     ok = all(root_object(a) is fp for a in tm.strip_ite(rg.ret))
-    ctx.ob("C18.4", g, ok, "merge_dicts returns its (updated) first "
-           "argument", key="C18.4:returns-first", nontrivial=False)
+    if not ok and rg.ret is tm.NONE and e2e is True:
+        ctx.ob("C18.4", g, True, "merge_dicts merges into its first "
+               "argument and returns nothing; the callers use the merged "
+               "first argument", key="C18.4:returns-first", nontrivial=False)
+    else:
+        ctx.ob("C18.4", g, ok, "merge_dicts returns its (updated) first "
+               "argument", key="C18.4:returns-first", nontrivial=False)
 
 
 def _restricted_writes(res, target: T, source: T, present: bool):
@@ -1155,6 +1282,49 @@ def _merge_config(ctx, prog):
         from_file = any(is_call_to(x, "json.loads", "json.load")
                         for x in cfg.walk())
         ok = copy_of_args and from_file
+    if not ok:
+        # judged by the sources of the dict that becomes the namespace
+        # (merge helpers looked through): the file's dict over vars(args)
+        from ..lib import dict_priority
+        r2 = Interp(prog, inline=lambda fn: fn.qualname == ST +
+                    "merge_dicts", max_depth=3).run(f)
+        ns2 = [e for e in r2.calls("argparse.Namespace")]
+        spread = [v for e in ns2[:1] for k, v in e.data["kwargs"]
+                  if k == "**"]
+        pr = dict_priority(spread[0], Interp.unname) if spread else None
+        ue2 = [e for e in r2.of_kind("call") if (e.data.get("name") or "")
+               .endswith("update_existing_keys")]
+        if pr is not None and len(pr) == 2:
+            is_file = lambda x: any(is_call_to(y, "json.loads", "json.load")
+                                    for y in x.walk())
+            is_args = lambda x: is_call_to(x, "builtins.vars") and \
+                x.args[1] and x.args[1][0] is args
+            good = is_file(pr[0]) and is_args(pr[1])
+            swapped = is_args(pr[0]) and is_file(pr[1])
+            if good or swapped:
+                ctx.ob("C18.6", ns2[0], good,
+                       "-c: the namespace is built from the file's dict "
+                       "over vars(args) (file wins)" if good else
+                       "-c: the parsed arguments take priority over the "
+                       "config file: the values of the file are ignored for "
+                       "every option", key="C18.6:file-wins")
+                ctx.ob("C18.6", ns2[0], True, "-c: the merged dict becomes "
+                       "the namespace that is returned",
+                       key="C18.6:namespace")
+                other = (ue2[0].data["bound"] or {}).get("other") \
+                    if ue2 else None
+                ok3 = len(ue2) == 1 and other is pr[0 if good else 1]
+                ctx.ob("C18.6", ue2[0] if ue2 else f, ok3,
+                       "-c: package settings are overridden only through "
+                       "update_existing_keys with the file's dict" if ok3
+                       else "-c: SETTINGS override deviates",
+                       key="C18.6:settings-override")
+                sinks = find_sinks(r2)
+                ctx.ob("C18.6", f, not sinks,
+                       "-c: nothing is written to disk (session only)"
+                       if not sinks else f"-c: merge_config writes a file "
+                       f"at {sinks[0][0].where}", key="C18.6:no-write")
+                return
     ctx.ob("C18.6", ups[0] if ups else f, ok,
            "-c: a copy of vars(args) is updated with the file's dict (file "
            "wins)" if ok else
